@@ -12,7 +12,7 @@ META = {
     "C02": ("exploration", "property-based runtime oracle on Message encode/decode/copy with stratified Unicode and integer-spelling generators",
             "Round-trip, canonical-form and idempotence equations evaluated on generated field tuples and lines, with an independent formatter/parser as oracle.",
             "Carriable payload = no ';', no CR/LF, payload == payload.rstrip() (Python's notion of blank)."),
-    "C03": ("exploration; verdicts under concurrent validation from three real threads", "differential runtime oracle: independent serial-API validator vs Message.validate / ChildSensor.validate / Gateway.logic over an exhaustive header product and per-rule payload corpora",
+    "C03": ("exploration", "differential runtime oracle: independent serial-API validator vs Message.validate / ChildSensor.validate / Gateway.logic over an exhaustive header product and per-rule payload corpora; verdicts under concurrent validation from three real threads",
             "The header product (version x command x sub-type x node/child class x ack) is enumerated completely; payload rules are judged on decided boundary corpora; undecided spellings are executed but not judged.",
             "vf/spec.py is authored from the published serial API and the statement; it never imports mysensors."),
     "C04": ("exploration", "lock-step reference model + event-log checker (state projection after every step, callback count/fields/visibility, raising-callback differential)",
@@ -36,7 +36,7 @@ META = {
     "C10": ("exploration", "lock-step session automaton (none/requested/offered/fetching) against real OTA handling, bounded-exhaustive + random histories",
             "Every stream request and set message reply is compared with the reference automaton; malformed requests must leave sessions and output untouched.",
             "Reply to an out-of-range block index is unconstrained (silence or empty data)."),
-    "C11": ("exploration; second save through one Persistence object; the same round trip in a child interpreter under a non-UTF-8 locale", "round-trip oracle over history-generated states in both formats with strict (type-tagged) projections",
+    "C11": ("exploration", "round-trip oracle over history-generated states in both formats with strict (type-tagged) projections; second save through one Persistence object; the same round trip in a child interpreter under a non-UTF-8 locale",
             "States produced by real histories (with transient state populated) are saved and loaded in JSON and pickle; projections compared strictly, transient state must be empty after load.",
             "Projection = user-visible node/child/value tree and node attributes."),
     "C12": ("fault_enumeration", "crash/fault injection at every file operation of a save (in-process FS shim with forked crash children; strace syscall injection on a real process), old-or-new oracle on the next load",
@@ -45,25 +45,25 @@ META = {
     "C13": ("fault_enumeration", "exhaustive damage enumeration (every truncation offset, zero fill) x backup variants; loaded state must be a complete saved state or empty, never an exception",
             "All truncation lengths and zero-fills of valid files in both formats, crossed with backup absent/intact/damaged.",
             "Only the damage kinds the statement names are generated."),
-    "C14": ("exploration; real-thread jobs: real poll thread + real threading.Timer chain (5 ms) and real asyncio loop + executor saves under a message flood", "lock-step histories with save ticks at arbitrary positions ended by the real stop(); projection before stop vs after reload",
+    "C14": ("exploration", "lock-step histories with save ticks at arbitrary positions ended by the real stop(); projection before stop vs after reload; real-thread jobs: real poll thread + real threading.Timer chain (5 ms) and real asyncio loop + executor saves under a message flood",
             "Every handler kind as last state change before stop, after ticks at arbitrary positions, in both formats and flavours.",
             "Save ticks fire the real schedule_save body / async save loop."),
     "C15": ("fault_enumeration", "fault injection at every file operation and at every serialisation write point (concurrent mutation), on the real timer chain / async save loop in virtual time",
             "After each injected failure: previous file loadable, state still marked unsaved, next tick armed, next clean tick persists current state, stop() works.",
             "Concurrent mutation is produced deterministically at write points (a stand-in for the poll thread running while the timer thread serialises)."),
-    "C16": ("exploration; real stress of the real serial/TCP gateways on a pty / loopback socket under connection churn (device receive log: exactly-once, order, pump alive, delivery after the faults stop)", "controlled-scheduler race detection: sys.monitoring LINE/INSTRUCTION events drive real threads through all interleavings up to a preemption bound; exactly-once/FIFO log checker for producers x pump",
+    "C16": ("exploration", "controlled-scheduler race detection: sys.monitoring LINE/INSTRUCTION events drive real threads through all interleavings up to a preemption bound; exactly-once/FIFO log checker for producers x pump; real stress of the real serial/TCP gateways on a pty / loopback socket under connection churn (device receive log: exactly-once, order, pump alive, delivery after the faults stop)",
             "All schedules up to the preemption bound of send vs connection_lost/disconnect/reconnect at line granularity; stress run of several producers with the real pump checked by an exactly-once per-producer-FIFO log checker.",
             "Exhaustive only below the stated preemption bound."),
     "C17": ("exploration", "round-trip and acceptance oracles over enumerated prefixes/topics; subscription coverage checker over presentation histories and restored states; raising-callback injection",
             "Prefixes enumerated up to 3 levels over a small alphabet plus random; topics with 0..8 levels; subscription set compared with the required set.",
             "Carriable payload as in C02."),
-    "C18": ("exploration; host option against real IPv4/IPv6 loopback devices; persistence file spellings judged by effect", "configuration enumeration: every subset of documented options per gateway class executed under fakes, README snippets executed literally, version strings judged by distinguishing probe frames",
+    "C18": ("exploration", "configuration enumeration: every subset of documented options per gateway class executed under fakes, README snippets executed literally, version strings judged by distinguishing probe frames; host option against real IPv4/IPv6 loopback devices; persistence file spellings judged by effect",
             "All option subsets x representative values for all six classes; ~260 version strings judged against numeric comparison.",
             "Documented options = README + constructor signatures."),
     "C19": ("exploration", "differential runtime oracle across chunkings and flavours through the real protocol classes",
             "Same byte stream fed with every single cut point / 1-byte / 120-byte / random splits to the threaded and asyncio protocols; final state and emitted sequence compared.",
             "With a lagging threaded pump only the interleaving of direct replies vs spawned jobs may differ (known finding F13)."),
-    "C20": ("fault_enumeration; real-device sample and churn runs (real loopback sockets and ptys, real threads / event loop, wall clock, anomalies must reproduce)", "deterministic simulation (virtual-time threads and asyncio loop) of connection lifetimes under enumerated fault sequences; offline checker over the event log",
+    "C20": ("fault_enumeration", "deterministic simulation (virtual-time threads and asyncio loop) of connection lifetimes under enumerated fault sequences; offline checker over the event log; real-device sample and churn runs (real loopback sockets and ptys, real threads / event loop, wall clock, anomalies must reproduce)",
             "Fault sequences up to a length bound over connect/read/write failures, peer closes, disconnects and stop; watchdog latency patterns on a simulated clock.",
             "Fakes mimic failure behaviour of serial ports and sockets; 'about twice' is read as [2, 2 x rt + 0.75 s] for the threaded and [2,3] x reconnect_timeout for the asyncio gateway (which looks at its deadline every rt + 0.1 s)."),
 }
